@@ -862,6 +862,6 @@ var PartEnum = &vkit.Part[Case]{
 var PartRandom = &vkit.Part[Case]{
 	Property: Property, Name: "random",
 	Rule:  "rapid: 1..12 leaf steps (none at all in 1/20 of the cases; all ok / one failure at first, last or drawn position / two failures / each failing with p=1/3; failure = returned error, Exec failing inside the fake and handed back through gorm, or a panic with a string, error, int, struct, nil or run-time-error value) wrapped into a random gormx.Combine tree of depth <= 3 with empty Combine() calls, x backend x begin fails (1/12) x commit fails (1/3) x rollback fails (1/3); same oracle as the enumeration. " + ntRule,
-	Quick: 2000, Thorough: 20000,
+	Quick: 20000, Thorough: 20000,
 	Gen: Gen, Exec: Exec,
 }
